@@ -1021,6 +1021,37 @@ func runC17(cfg *vh.Config) error {
 		decls = append(decls, &fileDecl{Ents: []*entityDecl{d}})
 		kinds = append(kinds, "fixed-name")
 	}
+	// every combination of the key flags once on every run: primary x shardKey x tenant x optional on a
+	// key-typed key (primary + optional is the fault class primary-optional-key), next to a plain primary
+	// key, before or after it; the List clause of the oracle is judged on each
+	for c := 0; c < 16; c++ {
+		prim, shard, tenant, opt := c&1 != 0, c&2 != 0, c&4 != 0, c&8 != 0
+		if prim && opt {
+			continue
+		}
+		fr := r.Fork(fmt.Sprintf("keyflags:%d", c))
+		d := genEntityOpt(fr, false, "")
+		for d.namedLikeResponseField() || d.eventNamedType() || d.summaryUpsert() {
+			d = genEntityOpt(fr, false, "")
+		}
+		anchor := eKey{uField: genKeyTyped(fr, "anchorId")}
+		anchor.Primary, anchor.Optional = true, false
+		k := eKey{uField: genKeyTyped(fr, vh.Pick(fr, []string{"flagKey", "flag_key", "scopeId", "tenantId"})), Shard: shard}
+		k.Primary, k.Optional = prim, opt
+		if opt {
+			k.Required = false
+		}
+		if tenant {
+			k.Tenant = ptr(vh.Pick(fr, []string{"account", "org", "owner"}))
+		}
+		if c%4 < 2 == (c < 8) {
+			d.Keys = []eKey{anchor, k}
+		} else {
+			d.Keys = []eKey{k, anchor}
+		}
+		decls = append(decls, &fileDecl{Ents: []*entityDecl{d}})
+		kinds = append(kinds, "key-flags")
+	}
 	nGen := cfg.Scale(130, 3000)
 	for i := 0; i < nGen; i++ {
 		d := genEntity(r)
@@ -1701,6 +1732,112 @@ func oracleC17(res *vh.Result, caseNo int, d *entityDecl, dump *dumped, in any) 
 				} else if k.Primary && l.Nums[3] != 1 {
 					fail("C17 primary key not required in the Get/Events request", "primary-key fields are required", req+"."+k.Name)
 				}
+			}
+		}
+	}
+	// List is scoped by the shard keys: every key-typed key flagged shardKey (primary or not, tenant or not,
+	// optional or not) is a path parameter of List, in declaration order, and a field of the List request
+	// (next to page / query); no other key is. Get, List and Events agree on the keys they share: one
+	// field of the same name, type, key options, required / optional flags in every request that holds it
+	// (only the field number may differ, List numbers its subset).
+	if query != nil && len(query.Method) == 3 {
+		ql := svcLines(svc.GetPackage(), 1, query)
+		var wantList []string
+		for _, k := range d.Keys {
+			if k.Key && k.Shard {
+				wantList = append(wantList, strcase.ToSnake(k.Name))
+			}
+		}
+		var listP []string
+		for _, p := range strings.Split(ql[2].Strs[3], "/") {
+			if strings.HasPrefix(p, "{") && strings.HasSuffix(p, "}") {
+				listP = append(listP, p[1:len(p)-1])
+			}
+		}
+		if strings.Join(listP, ",") != strings.Join(wantList, ",") {
+			fail("C17 List path parameters are not the shard keys in declaration order", "shard keys appear in the List method's path (List is scoped by the declared shard keys)", ql[2].Strs[3]+" for shard keys "+strings.Join(wantList, ","))
+		}
+		reqFields := func(mi int) (names []string, byName map[string]line) {
+			byName = map[string]line{}
+			for _, l := range lines[strings.TrimPrefix(query.Method[mi].GetInputType(), ".")] {
+				if l.Tag == 2 {
+					names = append(names, l.Strs[0])
+					byName[l.Strs[0]] = l
+				}
+			}
+			return
+		}
+		getN, getF := reqFields(0)
+		listN, listF := reqFields(1)
+		evN, evF := reqFields(2)
+		// the description of a field (leading comment, tag 14 directly after the field's line)
+		desc := map[string]string{}
+		{
+			var msg string
+			for i, l := range dump.Lines {
+				if l.Tag == 1 {
+					msg = l.Strs[0]
+				}
+				if l.Tag == 2 && i+1 < len(dump.Lines) && dump.Lines[i+1].Tag == 14 {
+					desc[msg+"."+l.Strs[0]] = dump.Lines[i+1].Strs[0]
+				}
+			}
+		}
+		reqName := func(mi int) string { return strings.TrimPrefix(query.Method[mi].GetInputType(), ".") }
+		for _, n := range getN {
+			g, e := desc[reqName(0)+"."+n], desc[reqName(2)+"."+n]
+			if _, ok := evF[n]; ok && g != e {
+				fail("C17 Get and Events requests disagree on the description of a shared key", "Get, List and Events agree on the keys they share", n+": "+g+" | "+e)
+			}
+			if _, ok := listF[n]; ok && g != desc[reqName(1)+"."+n] {
+				fail("C17 Get and List requests disagree on the description of a shared key", "Get, List and Events agree on the keys they share", n+": "+g+" | "+desc[reqName(1)+"."+n])
+			}
+		}
+		// the generated page / query fields close the List and Events requests (a key of that name in the
+		// path is reserved and never compiles)
+		keysOf := func(ns []string) []string {
+			if n := len(ns); n > 0 && ns[n-1] == "query" {
+				ns = ns[:n-1]
+			}
+			if n := len(ns); n > 0 && ns[n-1] == "page" {
+				ns = ns[:n-1]
+			}
+			return ns
+		}
+		listKeys := keysOf(listN)
+		if strings.Join(listKeys, ",") != strings.Join(wantList, ",") {
+			fail("C17 List request fields are not the shard keys in declaration order", "shard keys appear ... as fields of the List request", strings.Join(listN, ",")+" for shard keys "+strings.Join(wantList, ","))
+		}
+		evKeys := keysOf(evN)
+		if strings.Join(evKeys, ",") != strings.Join(getN, ",") {
+			fail("C17 Events request keys differ from the Get request's", "Get and Events take the same keys", strings.Join(evN, ",")+" vs "+strings.Join(getN, ","))
+		}
+		same := func(a, b line) bool { // everything but the field number
+			if strings.Join(a.Strs, "\x00") != strings.Join(b.Strs, "\x00") || len(a.Nums) != len(b.Nums) {
+				return false
+			}
+			for i := 1; i < len(a.Nums); i++ {
+				if a.Nums[i] != b.Nums[i] {
+					return false
+				}
+			}
+			return true
+		}
+		for _, n := range wantList {
+			g, okG := getF[n]
+			l, okL := listF[n]
+			e, okE := evF[n]
+			if !okG || !okE {
+				fail("C17 shard key missing from the Get/Events request", "Get, List and Events agree on the keys they share (a shard key is part of every URL)", n)
+				continue
+			}
+			if okL && (!same(g, l) || !same(g, e)) {
+				fail("C17 Get, List and Events requests disagree on a shared key", "Get, List and Events agree on the keys they share", g.String()+" | "+l.String()+" | "+e.String())
+			}
+		}
+		for _, n := range getN {
+			if e, ok := evF[n]; ok && !same(getF[n], e) {
+				fail("C17 Get and Events requests disagree on a shared key", "Get, List and Events agree on the keys they share", getF[n].String()+" | "+e.String())
 			}
 		}
 	}
